@@ -17,6 +17,7 @@ import (
 // Crash / fault-enumeration executor for sequential histories (C04; reused by C07, C12, C13).
 
 type crashState struct {
+	mem      *NSMem
 	dir      string
 	desc     string // e.g. "point StoreEntities.afterIDCommit#2" or "wal op3 frac=999 byte=8123"
 	class    string // normalised fault position for signatures
@@ -34,6 +35,9 @@ type CrashRun struct {
 	fp       string
 	applied  []bool
 	grabbed       map[string]*grabbedDS
+	mem           *NSMem   // C13: every mapping handed out so far
+	memAfter      []*NSMem // memAfter[i] = mem after i ops
+	written       map[string]bool // identifiers (as in the scenario) written so far
 	walEpochStart int // WAL offsets are only comparable for ops after the last clean restart
 	deletedIDs  map[uint32]bool
 	seenDsIDs   map[uint32]string // internal dataset id -> "name#incarnation"
@@ -133,7 +137,7 @@ func (r *CrashRun) snapshot(desc, class string, inflight int) {
 		r.Stats["snapshot_errors"]++
 		return
 	}
-	r.states = append(r.states, &crashState{dir: d, desc: desc, class: class, inflight: inflight, acked: r.ackedCount()})
+	r.states = append(r.states, &crashState{dir: d, desc: desc, class: class, inflight: inflight, acked: r.ackedCount(), mem: r.mem.Clone()})
 }
 
 func (r *CrashRun) ackedCount() int { return r.curOp }
@@ -181,6 +185,16 @@ func (r *CrashRun) verifyState(cs *crashState) *Violation {
 	}
 	if matched == 1 {
 		r.Stats["inflight_survived"]++
+	}
+	if prop == "C13" && cs.mem != nil {
+		var cur []string
+		for c := range cs.mem.IDs {
+			cur = append(cur, c)
+		}
+		if v := ObserveNS(h, cs.mem.Clone(), cur, "@"+cs.class); v != nil {
+			v.Message = fmt.Sprintf("after crash at %s: %s", cs.desc, v.Message)
+			return v
+		}
 	}
 	rs, v := RawConsistency(h, prop)
 	if v != nil {
@@ -297,7 +311,7 @@ func RunCrashScenario(sc *Scenario) (vd *Verdict) {
 		vd.Verdict, vd.Message = "error", err.Error()
 		return
 	}
-	r := &CrashRun{SeqRun: sr, maxSnap: int(sc.Knob("maxStates", 24)), deletedIDs: map[uint32]bool{}, seenDsIDs: map[uint32]string{}, incarnation: map[string]int{}, grabbed: map[string]*grabbedDS{}}
+	r := &CrashRun{SeqRun: sr, maxSnap: int(sc.Knob("maxStates", 24)), deletedIDs: map[uint32]bool{}, seenDsIDs: map[uint32]string{}, incarnation: map[string]int{}, grabbed: map[string]*grabbedDS{}, mem: NewNSMem(), written: map[string]bool{}}
 	r.noteDatasetIDs()
 	defer func() {
 		for _, cs := range r.states {
@@ -329,6 +343,9 @@ func RunCrashScenario(sc *Scenario) (vd *Verdict) {
 		if sc.Property == "C12" {
 			vd.Nontrivial = r.Stats["compactions"] >= 1 && r.Stats["crash_states_verified"] >= 1
 		}
+		if sc.Property == "C13" {
+			vd.Nontrivial = r.Stats["roundtrips"]+r.Stats["commits"] >= 2
+		}
 	}()
 	armed := map[string]string{} // "point#hit" -> kind
 	for _, f := range sc.Faults {
@@ -350,6 +367,7 @@ func RunCrashScenario(sc *Scenario) (vd *Verdict) {
 		return nil
 	}
 	r.models = []*Model{r.M.Clone()}
+	r.memAfter = []*NSMem{r.mem.Clone()}
 	r.walEnds = []int64{WalEnd(r.H.Dir)}
 	r.fp = FilesFingerprint(r.H.Dir)
 	r.applied = make([]bool, len(sc.Ops))
@@ -388,6 +406,20 @@ func RunCrashScenario(sc *Scenario) (vd *Verdict) {
 				r.Stats["ctx_txns"]++
 			}
 			werr = st.ExecuteTransaction(t)
+		case "nsid":
+			mgmt = true
+			r.Stats["roundtrips"]++
+			if v := RoundTrip(r.H, op.S, r.mem); v != nil {
+				fail(v, i)
+				return
+			}
+		case "alias":
+			mgmt = true
+			r.Stats["alias_probes"]++
+			if v := ContextAliasing(r.H, op.S); v != nil {
+				fail(v, i)
+				return
+			}
 		case "dup":
 			mgmt = true
 			if ds := r.H.Dataset(op.DS); ds != nil {
@@ -465,6 +497,12 @@ func RunCrashScenario(sc *Scenario) (vd *Verdict) {
 			r.fp = FilesFingerprint(r.H.Dir)
 			r.walEpochStart = i + 1
 			r.grabbed = map[string]*grabbedDS{}
+			if sc.Property == "C13" {
+				if v := ObserveNS(r.H, r.mem, r.writtenCuries(r.H), ":after-restart"); v != nil {
+					fail(v, i)
+					return
+				}
+			}
 		default:
 			fail(viol(sc.Property, "harness", "invalid", "unknown op kind %q", op.K), i)
 			return
@@ -534,6 +572,18 @@ func RunCrashScenario(sc *Scenario) (vd *Verdict) {
 				}
 			}
 		}
+		if sc.Property == "C13" {
+			for _, e := range op.Ents {
+				if werr == nil {
+					r.noteWritten(e)
+				}
+			}
+			if v := ObserveNS(r.H, r.mem, r.writtenCuries(r.H), ""); v != nil {
+				fail(v, i)
+				return
+			}
+		}
+		r.memAfter = append(r.memAfter, r.mem.Clone())
 		r.models = append(r.models, r.M.Clone())
 		r.walEnds = append(r.walEnds, WalEnd(r.H.Dir))
 	}
@@ -596,6 +646,7 @@ func RunCrashScenario(sc *Scenario) (vd *Verdict) {
 				if x >= b {
 					cs.inflight, cs.acked = -1, c.op+1
 				}
+				cs.mem = r.memAfter[cs.acked].Clone()
 				r.Stats["fault_crash_at_wal_byte"]++
 				r.states = append(r.states, cs)
 			}
@@ -676,4 +727,25 @@ func (r *CrashRun) postCrashDatasetProbe(h *Hub, m *Model, cs *crashState) *Viol
 		return v
 	}
 	return nil
+}
+
+func (r *CrashRun) noteWritten(e Ent) {
+	c := CanonSpec(e)
+	r.written[c.ID] = true
+	for _, pt := range refTargets(c) {
+		r.written[pt[0]] = true
+		r.written[pt[1]] = true
+	}
+}
+
+// writtenCuries gives the CURIEs of every identifier written so far (no new namespaces are
+// introduced: these were all compacted when they were written).
+func (r *CrashRun) writtenCuries(h *Hub) []string {
+	var out []string
+	for _, u := range sortedKeys(r.written) {
+		if c, err := h.Store.GetNamespacedIdentifier(u, nil); err == nil && c != "" {
+			out = append(out, c)
+		}
+	}
+	return out
 }
